@@ -8,7 +8,7 @@ use std::sync::atomic::{AtomicU64, Ordering};
 use std::sync::{Arc, Mutex, OnceLock};
 use std::time::Instant;
 
-pub const HANG_MS: u64 = 40_000;
+pub const HANG_MS: u64 = 120_000;
 
 pub struct Slot {
     /// milliseconds since process start at which the current call began; 0 = not inside a call
